@@ -93,8 +93,10 @@ def Sched.settleAllN : Nat → Sched → Sched
 
 def Sched.settleAll (d : Sched) : Sched := d.settleAllN (d.bombs.length + 1)
 
-def Sched.joinAll (d : Sched) : Sched :=
-  let d := (d.fire .joinStart).settleAll
+/-- `join`: `fallback` = the program has saturated the blocking pool, so the pool refuses the joiner closure -/
+def Sched.joinAll (d : Sched) (fallback : Bool := false) : Sched :=
+  let d := (d.fire .joinStart).fire (if fallback then .joinFallbackThread else .joinPool)
+  let d := d.settleAll
   let d := (List.range d.s.nw).foldl (fun d w =>
     if d.s.main w == .idle then (d.fire (.exitLoop w)).fire (.teardown w) else d) d
   d.fire .joinReturn
@@ -127,8 +129,9 @@ inductive Obs where
   | canc (t : Nat)                              -- the receiver resolved to `Err(Canceled)`
   | hang (t : Nat)                              -- the receiver did not resolve (watchdog)
   | die (w p : Nat)                             -- a waker panicked on worker `w`'s thread
-  | joinCall
+  | joinCall (fallback : Bool)                  -- `join` called; `fallback`: the harness had saturated the pool
   | joinRet (r : Option Nat)
+  | joinErr                                     -- `join` returned `Err(io::Error)`
   | alive (n : Nat)                             -- worker threads that still exist (after join returned)
   | problem (sig : String)                      -- a task body saw something impossible (overlap gauge, thread)
   deriving Repr
@@ -278,7 +281,9 @@ def Acc.stepObs (a : Acc) : Obs → Acc
   | .alive n => if aliveWorkers a.s = n then a else a.fail s!"worker-alive-after-join {n}"
   | .problem sig => a.fail s!"problem {sig}"
   | .die w p => a.fire (.die w p) s!"panic-outside-loop {w}"
-  | .joinCall => a.fire .joinStart "join-twice"
+  | .joinCall fallback =>
+    (a.fire .joinStart "join-twice").fire (if fallback then .joinFallbackThread else .joinPool) "join-twice"
+  | .joinErr => a.fail "join-returned-error"
   | .joinRet r =>
     let a := a.flushDying
     -- no worker may still be inside a task (sequential mode) and nothing may be left in the queue
